@@ -42,11 +42,11 @@ def lexer_conformance(ctx):
     ctx.cov["evaluations"] += ntexts
 
 
-def parser_conformance(ctx):
+def parser_conformance(ctx, single=None):
     """The real grammar-file parser's syntax tree vs the token-level model FileParse.tla."""
     import conf
     out = ctx.sub("parse")
-    r = ctx.vh(["parseobs", "-out", out, "-seed", ctx.seed, "-shards", 16, "-ntexts", ctx.pick(3000, 120000), "-nfile", ctx.pick(1200, 40000),
+    r = ctx.vh(["parseobs", "-out", out, "-seed", ctx.seed, "-shards", 1, "-single", single]) if single else ctx.vh(["parseobs", "-out", out, "-seed", ctx.seed, "-shards", 16, "-ntexts", ctx.pick(3000, 120000), "-nfile", ctx.pick(1200, 40000),
                 "-klen", ctx.pick(2, 3), "-corpus", conf.CORPUS, "-nrand", ctx.pick(40, 300), "-nexpr", ctx.pick(10, 60), "-ntok", ctx.pick(60, 400)])
     log(r.stdout.strip().splitlines()[-1])
     shards = sorted(glob.glob(os.path.join(out, "parse-*.json")))
@@ -73,7 +73,7 @@ def parser_conformance(ctx):
     ctx.cov["parser_texts"] = n
     ctx.cov["parser_trees"] = trees
     ctx.cov["evaluations"] += n
-    if trees < ctx.pick(800, 8000):
+    if trees < ctx.pick(800, 8000) and not single:
         raise Inconclusive("too few texts that parse: %d" % trees)
     # from the syntax tree to the grammar's symbols and rules: the visitors vs SymTab.tla (same observations)
     results = run_tlc_shards(ctx, "ConfSymTab.tla", "ConfSymTab.cfg", shards, timeout=ctx.pick(600, 3000), extra=["-continue"])
@@ -98,13 +98,16 @@ def parser_conformance(ctx):
                 o["text"][:300], name, o["sym"]["outcome"], json.dumps(o["sym"]["symbols"])[:500], json.dumps(o["sym"]["rules"])[:300]))
     ctx.cov["symtab_judged"] = judged
     ctx.cov["symtab_grammars_built"] = okj
-    if okj < ctx.pick(300, 3000):
+    if okj < ctx.pick(300, 3000) and not single:
         raise Inconclusive("too few texts whose grammar was built: %d" % okj)
 
 
 def run(ctx, replay):
     if replay:
         meta = json.load(open(os.path.join(replay, "meta.json")))
+        if meta.get("kind") in ("parser", "symtab"):
+            parser_conformance(ctx, single=os.path.join(replay, "input.y"))
+            return ctx.finish("model_checking")
         raise Inconclusive("replay: `harness filerender -seed %s -n %s -spec %s -layout %s` reproduces the text" % (
             meta["seed"], meta["n"], meta["spec"], ",".join(map(str, meta["layout"]))))
     lexer_conformance(ctx)
